@@ -1,6 +1,7 @@
 //! Correspondence harness: runs the real woodpile crates on case files and prints one JSON
 //! observation (a list of fields, each a list of numbers) per case.  See DESIGN.md section 4.2.
 mod util;
+mod sdq;
 mod win;
 
 use std::io::{BufRead, Write};
@@ -29,6 +30,7 @@ fn main() {
         }
         let obs: util::Obs = match family {
             "win" => win::run(line),
+            "sdq" => sdq::run(line),
             _ => {
                 eprintln!("unknown family {family}");
                 std::process::exit(2);
